@@ -43,6 +43,24 @@ def main():
         if ownrules and extra:
             final += " (+ " + " ".join(extra) + ")"
         rows.append(f"| {sid} | {', '.join(files)} | {before} | {final} |")
+    import io, contextlib
+    buf = io.StringIO()
+    with contextlib.redirect_stdout(buf):
+        _emit(rounds, rows)
+    out = buf.getvalue()
+    print(out)
+    if "--splice" in sys.argv:
+        summary, table = out.strip().split("\n\n")
+        dp = os.path.join(VERIF, "DESIGN.md")
+        d = open(dp).read()
+        for tag, text in (("summary", summary), ("rows", table)):
+            a, b = f"<!-- seedtable:{tag} -->", f"<!-- /seedtable:{tag} -->"
+            i, j = d.index(a) + len(a), d.index(b)
+            d = d[:i] + "\n" + text + "\n" + d[j:]
+        open(dp, "w").write(d)
+
+
+def _emit(rounds, rows):
     print("| | changes | own check reported at once | only another property's check | nothing reported | own check reports now | any check reports now |")
     print("|---|---|---|---|---|---|---|")
     for k in sorted(rounds):
